@@ -278,6 +278,11 @@ class Run:
                 self.violations.append({'slice': 'engine-b', 'template': cfg['template'], 'query': 'resolved-public-item-is-emitted-public', 'args': [to_i64(x) for x in ws[0].args],
                                         'expected': 'every item / field / function that is public in the resolved model is reachable from outside the emitted module',
                                         'native': txt[:1500]})
+            elif self._call_error_in_emitted_text(txt, ws):
+                w_bad, msg = self._call_error_in_emitted_text(txt, ws)
+                # a call expression of an emitted wrapper does not type-check (wrong argument, wrong count, callee not a function)
+                self.violations.append({'slice': 'engine-b', 'template': cfg['template'], 'query': 'emitted-wrapper-call-type-checks', 'args': [to_i64(x) for x in w_bad.args],
+                                        'expected': 'the call inside every emitted wrapper passes the receiver and the declared arguments', 'native': msg[:1500]})
             elif 'cannot transmute between types of different sizes' in txt or 'E0512' in txt:
                 self.violations.append({'slice': 'engine-b', 'template': cfg['template'], 'query': 'emitted-size-check-compiles', 'args': [to_i64(x) for x in ws[0].args],
                                         'expected': 'rustc accepts transmute::<[u8; size], T>', 'native': txt[:1500]})
@@ -296,6 +301,16 @@ class Run:
             self.unsupported.append({'unsupported': 'Engine B: %d of %d harnesses produced no verdict' % (len(names) + 1 - r['summary']['ok'] - len(r['summary']['failed']), len(names) + 1)})
         self.validated += len(ws)
         shutil.rmtree(os.path.join(crate, 'target', 'kani'), ignore_errors=True) if False else None
+
+    @staticmethod
+    def _call_error_in_emitted_text(txt, ws):
+        """(witness, message) of the first E0308 / E0618 / E0061 whose location lies inside the text pyxis emitted (not in the harness)"""
+        import re as _re
+        for m in _re.finditer(r'error\[(E0308|E0618|E0061)\][^\n]*\n\s*--> src/w(\d+)/m\.rs:(\d+)', txt):
+            for w in ws:
+                if w.idx == int(m.group(2)) and int(m.group(3)) <= getattr(w, 'emitted_lines', 0):
+                    return w, txt[m.start():m.start() + 1500]
+        return None
 
     def run_slice(self, S, sl, findings):
         a = sym_args(sl.nparams)
